@@ -19,6 +19,9 @@ from ..consts import Folder, Ref, EnumVal, Unknown
 from ..model import DEX, DEX_TYPES, AnalysisError
 from ..spec import dalvik
 
+_INLINE = {"*module*"}
+_NO_INLINE = {"get_kind"}   # the pool resolver stays an opaque term on purpose
+
 KIND_MAP = {"string": "STRING", "type": "TYPE", "field": "FIELD", "method": "METH", "proto": "PROTO",
             "call_site": "CALL_SITE", "method+proto": "METH_PROTO", "method_handle": "METHOD_HANDLE"}
 ROLE_OPERAND = {"reg": "REGISTER", "lit": "LITERAL", "lit_high": "LITERAL", "off": "OFFSET"}
@@ -62,7 +65,7 @@ def run(ctx):
     ctx.mod(DEX_TYPES)
     folder = Folder(repo)
     table = folder.global_(m, "DALVIK_OPCODES_FORMAT")
-    ctx.require(isinstance(table, dict) and not isinstance(table, Unknown), "DALVIK_OPCODES_FORMAT does not fold to a constant dict")
+    ctx.require(isinstance(table, dict) and not isinstance(table, Unknown), "DALVIK_OPCODES_FORMAT does not fold to a constant dict (the table is built by code the constant folder does not evaluate)")
     table_node = m.assigns.get("DALVIK_OPCODES_FORMAT")
     tfunc = "DALVIK_OPCODES_FORMAT"
 
@@ -196,7 +199,7 @@ def _check_unused(ctx, repo, folder, m, op, cls, table_node):
         asg = dict(asg)
         for i in range(8):
             asg[("s", 0, i)] = (op >> i) & 1
-        it = Interp(repo, folder, asg=asg)
+        it = Interp(repo, folder, asg=asg, hooks={"inline_funcs": _INLINE, "no_inline": _NO_INLINE})
         o = it.new_obj(cls)
         it.call_function(init, [Sym("cm"), BufV("buff")], recv=o)
         return o
@@ -227,11 +230,16 @@ def _check_layout(ctx, repo, folder, m, op, cls, name, fmt, kind, kind_val, oper
         if f is not None:
             ctx.analysed(f)
 
+    presets = [{}]
+    if fmt in ("3rc", "4rcc"):
+        # the register list has AA entries: decided for a set of concrete counts with every other bit symbolic
+        presets = [{("s", 1, i): (v >> i) & 1 for i in range(8)} for v in (0, 1, 2, 3, 7, 255)]
+
     def run(asg):
         asg = dict(asg)
         for i in range(8):
             asg[("s", 0, i)] = (op >> i) & 1
-        it = Interp(repo, folder, asg=asg)
+        it = Interp(repo, folder, asg=asg, hooks={"inline_funcs": _INLINE, "no_inline": _NO_INLINE})
         o = it.new_obj(cls)
         it.call_function(init, [Sym("cm"), BufV("buff")], recv=o)
         out = {}
@@ -240,7 +248,9 @@ def _check_layout(ctx, repo, folder, m, op, cls, name, fmt, kind, kind_val, oper
         return asg, out, list(it.events)
 
     inst = "op 0x%02x %s (%s)" % (op, name, fmt)
-    res = explore(run)
+    res = []
+    for pre in presets:
+        res += [({**pre, **a}, r) for a, r in explore(lambda asg, pre=pre: run({**pre, **asg}))]
     ctx.count("paths", len(res))
     fields = {f[0]: f for f in spec["fields"]}
     zero_fields = [f for f in spec["fields"] if f[1] == "zero"]
@@ -294,19 +304,27 @@ def _check_layout(ctx, repo, folder, m, op, cls, name, fmt, kind, kind_val, oper
         else:
             ok = isinstance(raw, BytesV) and len(raw.bytes) == nbytes
             bad = None
+            if isinstance(raw, (Sym, Lin)):
+                raise AnalysisError("%s.get_raw(): result %s is outside the interpreter's fragment" % (cls.name, show(raw)[:120]))
             if ok:
+                unknown = None
                 for k in range(nbytes):
                     for i in range(8):
                         e = asg.get(("s", k, i), ("s", k, i))
                         g = raw.bytes[k][i]
                         if isinstance(g, tuple):
                             g = asg.get(("s",) + g[1:], g) if g[0] == "s" else g
+                        if g == TOP:
+                            unknown = "output byte %d bit %d" % (k, i)
+                            continue
                         if g != e:
                             ok = False
                             bad = "output byte %d bit %d is %s, input bit is %s" % (k, i, g, e)
                             break
                     if not ok:
                         break
+                if ok and unknown:
+                    raise AnalysisError("%s.get_raw(): %s left the exact bit domain for opcode 0x%02x" % (cls.name, unknown, op))
             else:
                 bad = "get_raw() returns %s, expected %d bytes" % (show(raw), nbytes)
             ctx.check("round-trip", inst, ok, graw, graw.qualname,
@@ -426,30 +444,37 @@ def _check_getters(ctx, cls, inst, op, name, fmt, kind, kind_val, spec, fields, 
                 if ops is None:
                     why = "get_operands() returns None: registers, method and proto index of %s are not exposed" % name
     elif fmt in ("3rc", "4rcc"):
-        # [ (REGISTER, i) for i in range(CCCC, CCCC+AA) ] + [kind entry]
+        # registers vCCCC .. vCCCC+AA-1 (AA is a constant on this path), then the pool index entry
         cccc = _exp_field(fields["CCCC"], op, asg)
         aa = _exp_field(fields["AA"], op, asg)
-        comp = tail = None
-        if isinstance(ops, Sym) and ops.op == "concat" and len(ops.args) == 2:
-            comp, tail = ops.args
-        if isinstance(comp, Comp) and isinstance(tail, list) and len(tail) == 1:
-            it = comp.iter
-            good_iter = False
-            if isinstance(it, Sym) and it.op == "range" and len(it.args) == 2:
-                lo, hi = it.args
-                exp_hi = Lin({cccc: 1, aa: 1}, 0)
-                lhi = Lin.of(subst(hi, asg)) if not isinstance(hi, Lin) else hi
-                good_iter = same_bits(lo, cccc, asg) and lhi is not None and _lin_eq(lhi, exp_hi, asg)
-            elt = comp.elt
-            good_elt = isinstance(elt, tuple) and len(elt) == 2 and tag_of(elt) == REG and elt[1] == Sym("loopvar", comp.var) and not comp.conds
-            good_tail = _is_kind_entry(tail[0], kind_val, _exp_field(fields["BBBB"], op, asg), asg, operand)
-            ok = good_iter and good_elt and good_tail
+        if not aa.is_const():
+            raise AnalysisError("%s: register count AA not fixed on this path" % inst)
+        n = aa.value()
+        if ops is None:
+            why = "get_operands() returns None: registers, method and proto index of %s are not exposed" % name
+        elif isinstance(ops, (Sym, Comp)):
+            raise AnalysisError("%s.get_operands(): result %s is outside the interpreter's fragment" % (cls.name, show(ops)[:160]))
+        elif isinstance(ops, list):
+            exp_len = n + 1 + (1 if fmt == "4rcc" else 0)
+            ok = len(ops) == exp_len
             if not ok:
-                why = "expected registers CCCC..CCCC+AA-1 then the index; got %s" % show(ops)[:240]
+                why = "expected %d register(s) vCCCC..vCCCC+%d then the index, got %d entries: %s" % (n, n - 1, len(ops), show(ops)[:200])
+            else:
+                for i_, ent in enumerate(ops[:n]):
+                    want = Lin({cccc: 1}, i_)
+                    val = ent[1] if isinstance(ent, tuple) and len(ent) == 2 else None
+                    lv = Lin.of(subst(val, asg)) if val is not None and not isinstance(val, Lin) else val
+                    if not (isinstance(ent, tuple) and len(ent) == 2 and tag_of(ent) == REG and lv is not None and _lin_eq(lv, want, asg)):
+                        if isinstance(val, Sym):
+                            raise AnalysisError("%s.get_operands(): register operand %s is an opaque term" % (cls.name, show(val)[:100]))
+                        ok = False
+                        why = "register %d: expected (REGISTER, CCCC+%d), got %s" % (i_, i_, show(ent)[:120])
+                        break
+                if ok and not _is_kind_entry(ops[n], kind_val, _exp_field(fields["BBBB"], op, asg), asg, operand):
+                    ok = False
+                    why = "index entry: got %s" % show(ops[n])[:160]
         else:
             why = "get_operands() returns %s" % show(ops)[:200]
-            if ops is None:
-                why = "get_operands() returns None: registers, method and proto index of %s are not exposed" % name
     ctx.check("operands", inst, ok, gops, "%s.get_operands" % cls.name,
               "get_operands() of opcode 0x%02x %s (%s): %s" % (op, name, fmt, why), witness=_wit(asg0),
               detail="operands match spec order/roles/bit positions for format %s" % fmt)
